@@ -747,7 +747,32 @@ func ruleFinalizerDiscipline() check.Rule {
 					}
 				}
 			}
-			if localCopy {
+			// the copy is taken before the field is replaced
+			copyBeforeReset := true
+			if v, ok := loopVar.(*types.Var); ok {
+				var copyPos, resetPos token.Pos
+				for _, d := range m.Defs[v] {
+					if d.Node != nil {
+						copyPos = d.Node.Pos()
+					}
+				}
+				ast.Inspect(fd.Body, func(n ast.Node) bool {
+					if as, ok := n.(*ast.AssignStmt); ok {
+						for _, l := range as.Lhs {
+							if s := fieldSelOf(info, l, rv); s != nil && s.Sel.Name == "finalizers" && resetPos == token.NoPos {
+								resetPos = as.Pos()
+							}
+						}
+					}
+					return true
+				})
+				if resetPos != token.NoPos && copyPos != token.NoPos && resetPos < copyPos {
+					copyBeforeReset = false
+				}
+			}
+			if localCopy && !copyBeforeReset {
+				c.Violation(key+"/local-copy", loop.Pos(), "the finalizer list is replaced before the local copy is taken: the loop iterates the empty list and no finalizer ever runs")
+			} else if localCopy {
 				c.OK(key+"/local-copy", loop.Pos(), "iterates a local copy of the finalizer list taken under the mutex")
 			} else {
 				c.Violation(key+"/local-copy", loop.Pos(), "the finalizer loop does not iterate a local copy taken under the mutex: a concurrent Add/Unsubscribe can race with it or run finalizers twice")
@@ -986,6 +1011,10 @@ func ruleTeardownAllRun() check.Rule {
 							n++
 							key := fmt.Sprintf("%s/teardown-release#%d", sc, n)
 							c.Report(armed, key, a.node.Pos(), "%s runs after %s, which can panic (it re-raises the panics of the teardowns it ran), and is not deferred: a panicking upstream teardown skips this release", a.what, panicky.what)
+						} else if panicky != nil && a.release && a.deferred && a.pos > panicky.pos {
+							n++
+							key := fmt.Sprintf("%s/teardown-release#%d", sc, n)
+							c.Report(armed, key, a.node.Pos(), "%s is deferred, but the defer statement stands after %s, which can panic: when it does, the defer has not been registered yet and this release is skipped", a.what, panicky.what)
 						}
 						if a.canPanic && !a.deferred && panicky == nil {
 							panicky = a
